@@ -103,3 +103,79 @@ Theorem legal_captures_is_filter p :
       is_set (c_them p) to || ((piece =? PAWN) && match ep p with Some e => to =? e | None => false end)) (move_generator p)).
 Proof. reflexivity. Qed.
 
+
+(* ---- C06: decimal printing round-trips through the integer parser; so does the en-passant square *)
+Local Open Scope Z_scope.
+
+Lemma digit_ok d : (d < 10)%N -> ((48 <=? 48 + d) && (48 + d <=? 57))%N = true.
+Proof. intros H. apply andb_true_intro. split; apply N.leb_le; lia. Qed.
+
+Lemma dec_digits_S f n acc :
+  dec_digits (S f) n acc = if (n / 10 =? 0)%N then (48 + n mod 10)%N :: acc else dec_digits f (n / 10)%N ((48 + n mod 10)%N :: acc).
+Proof. reflexivity. Qed.
+
+Lemma dec_digits_spec : forall f n acc base, (Z.of_N n < 10 ^ Z.of_nat (S f)) ->
+  exists k, digits_val (dec_digits (S f) n acc) base = digits_val acc (base * 10 ^ k + Z.of_N n) /\ 0 <= k
+            /\ exists c t, dec_digits (S f) n acc = c :: t /\ (48 <= c <= 57)%N.
+Proof.
+  induction f as [|f IH]; intros n acc base Hn.
+  - rewrite dec_digits_S. assert (Hn' : (n < 10)%N) by (change (10 ^ Z.of_nat 1) with 10 in Hn; lia).
+    assert (Hq : (n / 10 = 0)%N) by (apply N.div_small; exact Hn').
+    rewrite Hq. cbn [N.eqb]. rewrite N.mod_small by exact Hn'.
+    exists 1. cbn [digits_val]. rewrite digit_ok by exact Hn'.
+    replace (48 + n - 48)%N with n by (rewrite N.add_comm; symmetry; apply N.add_sub). split; [f_equal; lia|]. split; [lia|].
+    exists (48 + n)%N, acc. split; [reflexivity|lia].
+  - rewrite dec_digits_S. destruct (N.eqb_spec (n / 10) 0) as [Hq|Hq].
+    + assert (Hn' : (n < 10)%N). { destruct (N.lt_ge_cases n 10) as [H|H]; [exact H|]. assert (1 <= n / 10)%N by (apply N.div_le_lower_bound; lia). lia. }
+      rewrite N.mod_small by exact Hn'.
+      exists 1. cbn [digits_val]. rewrite digit_ok by exact Hn'.
+      replace (48 + n - 48)%N with n by (rewrite N.add_comm; symmetry; apply N.add_sub). split; [f_equal; lia|]. split; [lia|].
+      exists (48 + n)%N, acc. split; [reflexivity|lia].
+    + assert (Hlt : Z.of_N (n / 10) < 10 ^ Z.of_nat (S f)).
+      { rewrite N2Z.inj_div. change (Z.of_N 10) with 10. apply Z.div_lt_upper_bound; [lia|].
+        replace (10 * 10 ^ Z.of_nat (S f)) with (10 ^ Z.of_nat (S (S f))); [exact Hn|].
+        rewrite (Nat2Z.inj_succ (S f)), Z.pow_succ_r by lia. reflexivity. }
+      destruct (IH (n / 10)%N ((48 + n mod 10)%N :: acc) base Hlt) as (k & Hk & Hk0 & c & t & Hc & Hcr).
+      exists (k + 1). rewrite Hk. cbn [digits_val].
+      assert (Hm : (n mod 10 < 10)%N) by (apply N.mod_lt; lia).
+      rewrite digit_ok by exact Hm. replace (48 + n mod 10 - 48)%N with (n mod 10)%N by (rewrite N.add_comm; symmetry; apply N.add_sub).
+      split; [|split; [lia|exists c, t; split; [exact Hc|exact Hcr]]].
+      f_equal. rewrite Z.pow_add_r by lia. rewrite N2Z.inj_div, N2Z.inj_mod.
+      pose proof (Z.div_mod (Z.of_N n) 10 ltac:(lia)). change (Z.of_N 10) with 10. change (10 ^ 1) with 10. lia.
+Qed.
+
+Theorem parse_show_Z z : 0 <= z <= I32_MAX -> parse_i32 (show_Z z) = Some z.
+Proof.
+  intros Hz. unfold show_Z. assert (Hs : show_Z z = show_N (Z.to_N z)) by (unfold show_Z; destruct z; try reflexivity; lia).
+  replace (match z with Zneg _ => (45%N :: show_N (Z.to_N (- z))) | _ => show_N (Z.to_N z) end) with (show_N (Z.to_N z))
+    by (destruct z; try reflexivity; lia).
+  unfold show_N.
+  assert (Hb : Z.of_N (Z.to_N z) < 10 ^ Z.of_nat 25) by (rewrite Z2N.id by lia; unfold I32_MAX in Hz; change (10 ^ Z.of_nat 25) with 10000000000000000000000000; lia).
+  destruct (dec_digits_spec 24 (Z.to_N z) [] 0 Hb) as (k & Hk & Hk0 & c & t & Hc & Hcr).
+  unfold parse_i32. rewrite Hc.
+  destruct (N.eqb_spec c 45); [lia|]. destruct (N.eqb_spec c 43); [lia|].
+  rewrite <- Hc, Hk. cbn [digits_val]. rewrite Z2N.id by lia. cbn [Z.mul Z.add].
+  replace (0 * 10 ^ k + z) with z by lia.
+  destruct ((I32_MIN <=? z) && (z <=? I32_MAX)) eqn:E; [reflexivity|].
+  apply andb_false_iff in E. unfold I32_MIN, I32_MAX in *. destruct E as [E|E]; [apply Z.leb_gt in E|apply Z.leb_gt in E]; lia.
+Qed.
+
+Local Open Scope N_scope.
+(* the en-passant field: the two characters printed for a square parse back to it, in both arithmetic modes *)
+Definition ep_roundtrip_ok (mode : bool) (e : N) : bool :=
+  match show_sq e with
+  | [c1; c2] =>
+    match obind (u8_sub mode (c1 mod 256) 97) (fun file => obind (u8_sub mode (c2 mod 256) 49) (fun rank =>
+          obind (u8_mul mode 8 rank) (fun r8 => u8_add mode r8 file))) with
+    | Some idx => idx =? e
+    | None => false
+    end
+  | _ => false
+  end.
+
+Theorem ep_field_roundtrip mode e : e < 64 -> ep_roundtrip_ok mode e = true.
+Proof.
+  intros H. assert (Hin : In e (map N.of_nat (seq 0 64))) by (rewrite <- (N2Nat.id e); apply in_map; apply in_seq; lia).
+  assert (HF : Forall (fun x => ep_roundtrip_ok mode x = true) (map N.of_nat (seq 0 64))) by (destruct mode; vm_compute; repeat constructor).
+  rewrite Forall_forall in HF. apply HF. exact Hin.
+Qed.
